@@ -1293,10 +1293,17 @@ class WorkflowConductor(object):
         # task rerun requests. If they are not collapsed/consolidated, then the rerun
         # will result in multiple branches of executions.
         if len(tasks) > 1:
-            # The for loops below identify task requests that have subsequent task sequences
-            # not in other task requests.
+            # Drop a task request if the task execution is in the subsequent task sequence of
+            # another task request. Each sequence starts with the task execution of the request.
+            # If two requests are in the sequence of each other (i.e. in a cycle), keep the earlier.
             result = {
-                k: i for k, i in result.items() for j in result.values() if len(set(i) - set(j)) > 0
+                k: i
+                for k, i in result.items()
+                if not any(
+                    i[0] in j[1:] and (j[0] not in i[1:] or j[0] < i[0])
+                    for kj, j in result.items()
+                    if kj != k
+                )
             }
 
         return result
